@@ -617,3 +617,71 @@ def c02_r7(ctx):
     renames = [t for t in effects if t in ("os.rename", "os.replace")]
     ctx.ob(f, not bad and len(renames) == 1, "rename_file's only file-system effects are exists / remove / one rename",
            detail="other effects: %s" % bad if bad else "renames: %s" % renames)
+
+
+@rule("C02", "R8", "K4", "what names a segment's files is recognised by the pattern that cleans them up",
+      min_instances=1,
+      clause="Segment ids are drawn by Segment._random_id() from a constant alphabet (followed through the helper it calls to the string "
+             "handed to random.choice); TOC._segment_pattern(), which clean_files() uses to find the files of segments no TOC refers "
+             "to, must match '<index>_<id>.<ext>' for an id made of every character of that alphabet, with the id captured whole. "
+             "Two constants of two modules that have to agree: an id character outside the pattern's class leaves orphaned segment "
+             "files behind for ever.")
+def c02_r8(ctx):
+    prog = ctx.prog
+    rid = prog.method("codec.base.Segment", "_random_id", inherited=False)
+    pat = prog.method("index.TOC", "_segment_pattern", inherited=False)
+    ctx.saw(rid)
+    ctx.saw(pat)
+    # producer: the returned expression is a call to a project function that joins random.choice(<constant>) characters
+    alphabet = None
+    how = ""
+    rets = [r.value for r in ast.walk(rid.node) if isinstance(r, ast.Return) and r.value is not None]
+    if len(rets) == 1 and isinstance(rets[0], ast.Call):
+        res = calls_of(prog).resolve(rid, rets[0])
+        if res.kind == "exact" and len(res.targets) == 1:
+            g = res.targets[0]
+            ctx.saw(g)
+            for c in norm.calls_in(g.node, include_nested_defs=True):
+                if norm.call_name(c) == "choice" and len(c.args) == 1:
+                    v = prog.fold_str(g.module, c.args[0], g.cls)
+                    if isinstance(v, str) and v:
+                        alphabet = v
+                        how = "%s -> random.choice(%r)" % (g.short, v)
+    if alphabet is None and len(rets) == 1:
+        # the standard library's id sources, by their documented output alphabets
+        t = norm.canon(rets[0])
+        core = t
+        if isinstance(rets[0], ast.Subscript):
+            core = norm.canon(rets[0].value)
+        if core.endswith("uuid4().hex") or core.endswith("uuid1().hex"):
+            alphabet, how = "0123456789abcdef", "uuid .hex"
+        elif core.startswith("str(") and ("uuid4()" in core or "uuid1()" in core):
+            alphabet, how = "0123456789abcdef-", "str(uuid)"
+    if alphabet is None:
+        ctx.note("C02-R8: the alphabet of Segment._random_id() could not be read (%s); agreement with the clean-up pattern is not decided"
+                 % [norm.canon(r) for r in rets])
+        ctx.ob(rid, True, "segment id source: not readable, agreement with the clean-up pattern undecided")
+        return
+    ctx.ob(rid, True, "segment ids are drawn from a constant alphabet", detail=how)
+    # consumer: the regular expression (a string constant with the index name substituted)
+    fmt_ = None
+    for c in norm.calls_in(pat.node):
+        if norm.call_name(c) == "compile" and c.args and isinstance(c.args[0], ast.BinOp) and isinstance(c.args[0].op, ast.Mod):
+            v = prog.fold_str(pat.module, c.args[0].left, pat.cls)
+            if isinstance(v, str):
+                fmt_ = v
+    if fmt_ is None:
+        raise AnalysisError("TOC._segment_pattern no longer compiles a constant format string")
+    ok = False
+    detail = "pattern %r" % fmt_
+    if alphabet is not None:
+        try:
+            rx = re.compile(fmt_ % "IDX")
+            name = "IDX_" + alphabet
+            m = rx.match(name + ".seg")
+            ok = m is not None and m.group(1) == name and all(
+                (lambda mm, n_: mm is not None and mm.group(1) == n_)(rx.match("IDX_" + ch * 3 + ".pst"), "IDX_" + ch * 3) for ch in set(alphabet))
+        except Exception as e:
+            detail += " (%s)" % e
+    ctx.ob("Segment._random_id <-> TOC._segment_pattern", ok, "every character a segment id can contain is inside the id class of the clean-up pattern",
+           detail=detail + "; alphabet %r" % (alphabet,), loc=pat.loc)
